@@ -658,3 +658,41 @@ def n_confusable(ch, root):
 
 
 NODE_SCENARIOS["confusable"] = n_confusable
+
+
+def _place_bytes(where, v):
+    if where == "content":
+        return in_params({"suit-parameter-content": v})
+    if where == "component-part":
+        return minimal(common={"suit-components": [[{"raw": v}, "M"]]})
+    if where == "key-id":
+        d = minimal()
+        d["SUIT_Envelope_Tagged"]["suit-authentication-wrapper"]["SuitAuthentication0"] = {"CoseSign1Tagged": {
+            "protected": {"suit-cose-algorithm-id": "cose-alg-es-256", "suit-cose-key-id": v}, "unprotected": {}, "payload": None, "signature": "aabb"}}
+        return d
+    enc_ = copy.deepcopy(PARAM_DEFAULTS["suit-parameter-encryption-info"])
+    if where == "ciphertext":
+        enc_["CoseEncryptTagged"]["ciphertext"] = v
+    else:
+        enc_["CoseEncryptTagged"]["recipients"][0]["ciphertext"] = v
+    return in_params({"suit-parameter-encryption-info": enc_})
+
+
+def n_single_byte(ch, root):
+    """every one-byte string (all 256 values, incl. heads that announce more bytes than there are) at every union leaf."""
+    where = ch.choose("where", ["content", "key-id", "component-part", "ciphertext", "recipient-ciphertext"])
+    hi = ch.choose("hi", list(range(16)))
+    lo = ch.choose("lo", list(range(16)))
+    return _place_bytes(where, f"{hi:x}{lo:x}"), {}
+
+
+def n_two_bytes(ch, root):
+    """every two-byte string as parameter content / key id (thorough)."""
+    where = ch.choose("where", ["content", "key-id"])
+    a = ch.choose("a", list(range(256)))
+    b = ch.choose("b", list(range(256)))
+    return _place_bytes(where, f"{a:02x}{b:02x}"), {}
+
+
+NODE_SCENARIOS["single-byte"] = n_single_byte
+NODE_SCENARIOS["two-bytes"] = n_two_bytes
